@@ -736,6 +736,8 @@ def oracle_owning(tr, status, scripts):
                     v.append(f"{o['kind']} yielded the actor although termination was not graceful")
                 if 'stopped' not in res:
                     v.append(f"{o['kind']} yielded an actor value that did not go through stopped(): {res}")
+                if any(e[0] == 'user_abandoned' and e[1] == 'stopped' for e in tr):
+                    v.append(f"{o['kind']} yielded the actor although its stopped() callback was abandoned before it completed")
 
     if somes > 1:
         v.append(f"the actor value was handed out {somes} times")
